@@ -395,11 +395,17 @@ func decodeType(fold []byte, state *stateDecode) (*decoder, []byte, error) {
 			}
 			state = state.child
 
+			empty := decItem.Type.Size() == 0
 			for i := 0; i < n; i++ {
 				item := value.Index(i)
 				_, p, err := decItem.Decode(&item, packet, state)
 				if err != nil {
 					return nil, nil, err
+				}
+				if empty && len(p) == len(packet) {
+					// nothing was read and there is nothing to tell such elements apart: the rest is the same
+					// (the length comes from the wire: do not walk through billions of them)
+					break
 				}
 				packet = p
 			}
